@@ -21,6 +21,7 @@ pub enum Step {
     WinOver(&'static str, u8, &'static str), // write on `side` some content whose BLAKE3 beats the given content at path
     NormMtime,                          // give EVERY file of both trees one and the same modification time, long in the past
     Leftover(u8, &'static str, &'static str), // a staging file `<path>.copia-tmp` left by a killed run (partial bytes, recent mtime)
+    LowLoser(&'static str, u8),         // divergent edit at path: side A gets content whose BLAKE3 starts with n zero hex digits (the loser), side B content whose BLAKE3 starts with f
 }
 use Step::*;
 
@@ -42,6 +43,14 @@ pub fn scenarios() -> Vec<(&'static str, Vec<Step>)> {
         ("archive-garbage", vec![W(0, "f", "v1"), S, D(1, "f"), ArchiveFault(2), S]),
         ("archive-zero-length", vec![W(0, "f", "v1"), S, W(0, "g", "g"), S, D(1, "f"), ArchiveFault(1), S]),
         ("archive-other-version", vec![W(0, "f", "v1"), S, D(1, "f"), ArchiveFault(4), S]),
+        ("archive-version-zero", vec![W(0, "f", "v1"), S, D(1, "f"), ArchiveFault(6), S]),
+        ("archive-version-max", vec![W(0, "f", "v1"), W(0, "g", "g1"), S, D(0, "g"), ArchiveFault(7), S]),
+        ("delete-propagated-then-recreated-with-the-old-bytes", vec![W(0, "f", "v1"), W(0, "g", "g1"), S, D(0, "f"), S, W(0, "f", "v1"), S, S]),
+        ("delete-propagated-then-recreated-on-the-other-side", vec![W(0, "f", "v1"), S, D(1, "f"), S, W(0, "f", "v1"), S, D(0, "f"), S, W(1, "f", "v1"), S]),
+        ("delete-propagated-then-recreated-old-vs-new", vec![W(0, "f", "v1"), S, D(1, "f"), S, W(0, "f", "v1"), W(1, "f", "a-different-file"), S, S]),
+        ("conflict-copy-name-leading-zero (C06)", vec![LowLoser("f", 1), S, S]),
+        ("conflict-copy-name-two-leading-zeros (C06)", vec![W(0, "d/f", "base"), S, LowLoser("d/f", 2), S, S, Dry]),
+        ("conflict-copy-name-three-leading-zeros (C06)", vec![W(0, "f", "base"), S, LowLoser("f", 3), S]),
         ("archive-only-bak", vec![W(0, "keep", "k1"), S, W(0, "x", "x1"), S, D(1, "keep"), ArchiveFault(5), S]),
         ("equal-size-equal-mtime-edit (C06 mtime independence)", vec![W(0, "f", "aaaa"), W(0, "g", "keep"), S, W(0, "f", "bbbb"), NormMtime, S, S, Dry]),
         ("equal-size-equal-mtime-conflict (C06 mtime independence)", vec![W(0, "f", "base"), S, W(0, "f", "aaa1"), W(1, "f", "bbb2"), NormMtime, S, S]),
@@ -125,6 +134,13 @@ pub fn run_history_all(name: &str, steps: &[Step]) -> Vec<String> {
                 let target = blake3::hash(other.as_bytes());
                 for i in 0..4096 { let c = format!("winner-{i}"); if blake3::hash(c.as_bytes()).as_bytes() > target.as_bytes() { let _ = std::fs::write(env.side(*s).join(p), c); break; } }
             }
+            LowLoser(p, zeros) => {
+                let z = *zeros as usize;
+                let (fa, fb) = (env.side(0).join(p), env.side(1).join(p));
+                for f in [&fa, &fb] { if let Some(d) = f.parent() { let _ = std::fs::create_dir_all(d); } }
+                for i in 0..2_000_000u32 { let c = format!("low-{i}"); let h = b3(c.as_bytes()); if h.starts_with(&"0".repeat(z)) && h.as_bytes()[z] != b'0' { let _ = std::fs::write(&fa, c); break; } }
+                for i in 0..4096u32 { let c = format!("high-{i}"); if b3(c.as_bytes()).starts_with('f') { let _ = std::fs::write(&fb, c); break; } }
+            }
             ArchiveFault(k) => {
                 faulted = true;
                 if let Some(a) = env.archive_file() {
@@ -135,6 +151,8 @@ pub fn run_history_all(name: &str, steps: &[Step]) -> Vec<String> {
                         2 => { let _ = std::fs::write(&a, b"{ not json at all \x00\xff"); }
                         3 => { let _ = std::fs::write(&a, &bytes[..bytes.len() / 2]); }
                         4 => { let _ = std::fs::write(&a, String::from_utf8_lossy(&bytes).replace("\"format_version\": 1", "\"format_version\": 2")); }
+                        6 => { let _ = std::fs::write(&a, String::from_utf8_lossy(&bytes).replace("\"format_version\": 1", "\"format_version\": 0")); }
+                        7 => { let _ = std::fs::write(&a, String::from_utf8_lossy(&bytes).replace("\"format_version\": 1", "\"format_version\": 4294967295")); }
                         _ => { let _ = std::fs::remove_file(&a); } // only .bak (and maybe .tmp) left behind
                     }
                 }
@@ -179,6 +197,26 @@ pub fn run_history_all(name: &str, steps: &[Step]) -> Vec<String> {
                 } }
                 // C07: after an archive fault nothing is removed from either side
                 if faulted { for (before, after, s) in [(&ta, &na, "A"), (&tb, &nb, "B")] { for p in before.keys() { if !after.contains_key(p) { bad!(format!("[{name}] step {si}: with a lost/damaged archive, `{p}` was removed from side {s} (C07)")); } } } }
+                // C06: a divergent edit resolves on BOTH sides to the version with the greater BLAKE3 at the path, the other at
+                // `<path>.conflict-<host>-<first 12 hex of its hash>` (only where that name was free before the run: the
+                // occupied-name histories are the H7 finding)
+                if completed && !faulted {
+                    for (p, va) in ta.iter() { if let Some(vb) = tb.get(p) {
+                        if va == vb || p.ends_with(".copia-tmp") || p.contains(".conflict-") { continue; }
+                        if base.get(p) == Some(va) || base.get(p) == Some(vb) { continue; }
+                        let (ha, hb) = (blake3::hash(va), blake3::hash(vb));
+                        let (win, lose) = if ha.as_bytes() > hb.as_bytes() { (va, vb) } else { (vb, va) };
+                        let cname = format!("{p}.conflict-vh-{}", &b3(lose)[..12]);
+                        if ta.contains_key(&cname) || tb.contains_key(&cname) { continue; }
+                        for (after, s) in [(&na, "A"), (&nb, "B")] {
+                            if after.get(p) != Some(win) { bad!(format!("[{name}] step {si}: divergent edit of `{p}`: side {s} does not hold the version with the greater BLAKE3 at the path afterwards (C06)")); }
+                            if after.get(&cname) != Some(lose) {
+                                let got: Vec<&String> = after.iter().filter(|(q, v)| q.contains(".conflict-") && *v == lose).map(|(q, _)| q).collect();
+                                bad!(format!("[{name}] step {si}: divergent edit of `{p}`: the losing version (BLAKE3 {}...) must be at `{cname}` on side {s}; it is at {got:?} (C06)", &b3(lose)[..16]));
+                            }
+                        }
+                    } }
+                }
                 if completed {
                     // C06: converged, recorded state == tree, idempotent
                     if na != nb { let d: BTreeSet<&String> = na.keys().chain(nb.keys()).filter(|k| na.get(*k) != nb.get(*k)).collect(); bad!(format!("[{name}] step {si}: trees differ after a completed run at {d:?} (C06)")); }
@@ -204,8 +242,14 @@ pub fn run_history_all(name: &str, steps: &[Step]) -> Vec<String> {
 /// H8 / C08 "flushed before renamed": run one propagating bisync under strace and check that every staging file was
 /// fsync'ed (through some fd opened on it) before it was renamed into place, and before the archive was published
 pub fn trace_flush_order() -> Option<String> {
-    let env = Env::new("trace");
-    let _ = std::fs::write(env.side(0).join("f"), b"payload-to-propagate");
+    for si in 0..=crash_setups().len() { if let Some(w) = trace_flush_order_on(si) { return Some(w); } }
+    None
+}
+/// setup 0: one file to propagate; setup i > 0: crash setup i-1 (every action kind, conflicts included)
+fn trace_flush_order_on(si: usize) -> Option<String> {
+    let env = Env::new(&format!("trace{si}"));
+    if si == 0 { let _ = std::fs::write(env.side(0).join("f"), b"payload-to-propagate"); }
+    else { let (_, pre, change) = &crash_setups()[si - 1]; apply_plain(&env, pre); apply_plain(&env, change); }
     let tr = env.dir.join("trace.txt");
     let b = std::env::var("COPIA_BIN").unwrap_or_default();
     let st = Command::new("strace").args(["-f", "-qq", "-e", "trace=openat,open,creat,close,fsync,fdatasync,rename,renameat,renameat2", "-o"]).arg(&tr)
